@@ -45,6 +45,12 @@ theorem fact_fs2vault_target_wrapped :
        ">return:return nil, fmt.Errorf(\"unable to initialize filesystem storage: %w\", err)",
        "return:return exportToOtherStorage(ctx, source, target)"] := by decide
 
+/-- the export command applies the SAME gate as the running node: the wrapper call and pattern of every setup function of
+    `crypto.Configure` (regenerated `setupFns`) are the ones `fs2vault` puts around its target -/
+theorem fact_export_uses_the_nodes_validation :
+    C03.setupFns ≠ [] ∧
+    ∀ r ∈ C03.setupFns, ("assign:target = " ++ r.2.2.2.1 ++ "(target, " ++ r.2.2.2.2.2 ++ ")") ∈ C03.fs2vaultTargetSteps := by decide
+
 /-! ## helper facts about the wrapped save -/
 
 theorem wrappedSave_cases (valid : Bytes → Bool) (txt : Bytes → String) (fault : Bytes → Option String)
